@@ -10,12 +10,25 @@ in C like sched_trx.c does).  Both dumps are the constants of spec/Mframe.tla;
 TLC walks fn through the whole cycle and checks StartsAgree, BidCyclic,
 LookupInTable, MaskCovers, LayoutValidForTn in every state.  The space is
 finite and enumerated completely.
+
+Dispatch stage (the frame lookups of trxcon/src/sched_trx.c itself): driver C
+(harness/c/drv_sched_trx.c) links the unmodified sched_trx.c, sched_mframe.c
+and sched_lchan_desc.c with recording burst handlers.  For every (channel
+combination, timeslot) the scheduler is configured, the lchans are activated
+and bursts are received / pulled / probed frame by frame, with gaps of lost
+downlink frames of every length placed across a multiple of the period, inside
+a period and across the hyperframe wrap.  Every operation is one event of a
+trace validated against spec/SchedDispatch.tla through
+spec/SchedDispatchTrace.tla (constants: the layout dump above and the
+descriptor dump of the real l1sched_lchan_desc[]); SchedDispatch itself is
+model-checked on small made-up layouts (MC_SchedDispatch*.cfg).
 """
 import copy
 import json
 import os
 import re
 import subprocess
+import time
 from concurrent.futures import ThreadPoolExecutor
 
 from .. import cbuild, tlc, tlaval
@@ -206,6 +219,455 @@ def corruptions(dump):
     return out
 
 
+# ------------------------------------------------------------------ dispatch stage: sched_trx.c at work
+HYPER = 2715648
+EXPECT_ERRNO = dict(EINVAL=22, ENODEV=19, EALREADY=114)      # the values SchedDispatch.tla names
+NOLAYOUT = dict(cfg=-1, period=0, slotmask=0, mask=[], frames=[])
+DISPATCH_PARALLEL = 4
+
+
+def build_sched(ctx, sanitize=True):
+    exe = os.path.join(ctx.scratch, "drv_sched_trx" + ("" if sanitize else "_plain"))
+    L = cbuild.LIBOSMO
+    cbuild.cc(exe, [TRX + "/src/sched_trx.c", TRX + "/src/sched_mframe.c", TRX + "/src/sched_lchan_desc.c",
+                    cbuild.HC + "/drv_sched_trx.c", L + "/src/talloc.c", L + "/src/msgb.c"],
+              includes=[cbuild.HC + "/shim/schedtrx", cbuild.HC + "/shim/trxcon", TRX + "/include", L + "/include"],
+              defines=["_GNU_SOURCE"], sanitize=sanitize)
+    return exe
+
+
+class Scen:
+    """The operation script of one trace (one N ... block of the driver's input)."""
+
+    def __init__(self, cfgname, c, tn, lay, kind):
+        self.cfgname, self.c, self.tn, self.lay, self.kind = cfgname, c, tn, lay, kind
+        self.id = "%s-tn%d-%s" % (cfgname.replace("GSM_PCHAN_", ""), tn, kind)
+        self.ops = ["N"]
+
+    def op(self, *a):
+        self.ops.append(" ".join(str(x) for x in a))
+
+    def configure(self):
+        self.op("C", self.tn, self.c)
+
+    def activate_all(self, desc):
+        """l1sched_set_lchans() for every channel number of the mask that is not activated automatically."""
+        for cn in sorted({desc[x]["chan_nr"] for x in self.lay["mask"] if not desc[x]["auto"]}):
+            self.op("S", self.tn, cn | self.tn, 1)
+
+    def rx(self, fn, tn=None):
+        self.op("R", self.tn if tn is None else tn, fn % HYPER)
+
+    def pull(self, fn, tn=None):
+        self.op("P", self.tn if tn is None else tn, fn % HYPER)
+
+    def probe(self, fn, tn=None):
+        self.op("B", self.tn if tn is None else tn, fn % HYPER)
+
+    def trace(self, events):
+        return dict(id=self.id, cfg=dict(want=self.c, tn=self.tn, layout=self.lay), ev=events)
+
+
+def layout_of(trx, lid):
+    if lid < 0:
+        return NOLAYOUT
+    l = trx["layouts"][lid]
+    return dict(cfg=trx["cfgs"].index(l["cfg"]), period=l["period"], slotmask=l["slotmask"], mask=l["mask"], frames=l["frames"])
+
+
+def pick_gap_start(lay, desc, g, straddle, salt):
+    """Offset o (position of the last burst received before g lost frames) for a gap that does /
+    does not contain a multiple of the period.  Preferred: both ends belong to the same lchan with a
+    receive handler and at least one of its frames is lost in between (so that frames are substituted)."""
+    p = lay["period"]
+    dl = [f[0] for f in lay["frames"]]
+    mask = set(lay["mask"])
+    tiers = {}
+    for o in range(p):
+        if straddle != (o + g + 1 >= p):
+            continue
+        x, y = dl[o], dl[(o + g + 1) % p]
+        hasrx = y in mask and desc[y]["rx"]
+        if x == y and hasrx:
+            lost = sum(1 for i in range(1, g + 1) if dl[(o + i) % p] == x)
+            tier = 3 if (lost and g + 1 <= p) else 2
+        else:
+            tier = 1 if hasrx else 0
+        tiers.setdefault(tier, {}).setdefault(x, []).append(o)
+    if not tiers:
+        return None
+    groups = tiers[max(tiers)]
+    chans = sorted(groups)
+    os_ = groups[chans[(g + salt) % len(chans)]]
+    return os_[((g + salt) // len(chans)) % len(os_)]
+
+
+def scenarios_for(ctx, trx, desc, cfgname, c, tn, lid):
+    """All scripts for one (combination, timeslot)."""
+    lay = layout_of(trx, lid)
+    p = lay["period"]
+    out = []
+    other = (tn + 3) % 8
+    if lid < 0 or p == 0:
+        # no layout (-EINVAL, the burst entry points refuse the timeslot) or the empty GSM_PCHAN_NONE layout
+        # (never configured by trxcon: period 0, no frame lookup is defined)
+        s = Scen(cfgname, c, tn, lay, "configure")
+        s.configure()
+        if lid < 0:
+            for fn in (0, 51, HYPER - 1):
+                s.rx(fn), s.pull(fn), s.probe(fn)
+        s.rx(7, other), s.pull(7, other), s.probe(7, other)
+        return [s]
+    dl = [f[0] for f in lay["frames"]]
+    ul = [f[2] for f in lay["frames"]]
+    rxch = [x for x in lay["mask"] if desc[x]["rx"] and x in dl]
+    # (a) every frame of two periods, no loss, across a multiple of the period / across the hyperframe wrap
+    wrap_walk = ctx.thorough or (c + tn) % 4 == 0
+    for kind, mid in (("walk", p * (11 + tn)), ("walk-wrap", HYPER)):
+        if kind == "walk-wrap" and not wrap_walk:
+            continue
+        s = Scen(cfgname, c, tn, lay, kind)
+        s.configure()
+        s.rx(mid - p - 1), s.pull(mid - p - 1), s.probe(mid - p - 1)       # nothing is active but the AUTO lchans
+        s.activate_all(desc)
+        for fn in range(mid - p, mid + p):
+            s.pull(fn), s.rx(fn)
+            if fn < mid or ctx.thorough:
+                s.probe(fn)
+        out.append(s)
+    # (b) lost downlink frames: gaps of every length
+    glens = range(1, p + 3)
+    for kind in ("loss-straddle", "loss-inside", "loss-wrap"):
+        s = Scen(cfgname, c, tn, lay, kind)
+        s.configure()
+        s.activate_all(desc)
+        cur = p * (5 + tn)
+        for g in glens:
+            o = pick_gap_start(lay, desc, g, kind != "loss-inside", tn)
+            if o is None:
+                continue
+            if kind == "loss-wrap":
+                a = HYPER - p + o
+                for x in sorted({dl[o], dl[(o + g + 1) % p]}):          # fresh loss-detection state
+                    s.op("D", tn, x), s.op("A", tn, x)
+            else:
+                m = (cur // p + 2) * p                                   # more than a period after the previous burst
+                a = m + o if kind == "loss-inside" else m - p + o
+                while a <= cur + p:
+                    a += p
+            s.rx(a), s.rx(a + g + 1)
+            cur = a + g + 1
+        out.append(s)
+    # (c) out-of-order bursts, repeated bursts, deactivated lchans, reconfiguration, another timeslot
+    s = Scen(cfgname, c, tn, lay, "misc")
+    s.configure()
+    s.activate_all(desc)
+    s.activate_all(desc)                                                 # again: refused, nothing changes
+    base = p * (40 + tn)
+    for k, x in enumerate(rxch):
+        own = [o for o in range(p) if dl[o] == x]
+        o1, o2 = own[0], own[-1]
+        b = base + 3 * p * k
+        s.rx(b + o2), s.rx(b + o2)                                       # the same frame twice
+        if o1 != o2:
+            s.rx(b + o1)                                                 # older than the last processed one
+        s.rx(b + o2 + HYPER // 2)                                        # half a hyperframe ahead counts as behind
+        s.rx(b + o2 + HYPER // 2 - p)                                    # just less: ahead, too far to substitute
+        if ctx.thorough or k % 3 == tn % 3:
+            s.op("D", tn, x)
+            s.rx(b + p + o2), s.probe(b + p + o2)
+            if x in ul:
+                s.pull(b + p + ul.index(x))
+            s.op("D", tn, x)                                             # refused
+            s.op("A", tn, x)
+            s.rx(b + p + o2 + 1 if dl[(o2 + 1) % p] == x else b + 2 * p + o1)
+            s.op("A", tn, x)                                             # refused
+    s.rx(base, other), s.pull(base, other), s.probe(base, other)         # a timeslot that is not configured
+    s.configure()                                                        # reconfiguration: all channel states fresh
+    for x in rxch[:4]:
+        s.rx(base + 3 * p * len(rxch) + p + dl.index(x))
+    s.activate_all(desc)
+    for x in rxch[:4]:
+        s.rx(base + 3 * p * len(rxch) + 2 * p + dl.index(x) + 1)
+    out.append(s)
+    # thorough: every gap length 0..p+2 behind every start offset (hence: every lchan)
+    if ctx.thorough:
+        for o in range(p):
+            s = Scen(cfgname, c, tn, lay, "gaps-o%d" % o)
+            s.configure()
+            s.activate_all(desc)
+            pairs = []
+            cur = 0
+            for g in range(0, p + 3):
+                a = (cur // p + 2) * p + o
+                pairs.append((a, a + g + 1))
+                cur = a + g + 1
+            # one of the gaps of this trace lies across the hyperframe wrap
+            a, b = pairs[o % len(pairs)]
+            shift = HYPER - (a // p + 1) * p
+            for a, b in pairs:
+                s.rx(a + shift), s.rx(b + shift)
+            out.append(s)
+    return out
+
+
+def run_scripts(exe, scens):
+    """One driver process for the scripts of one (combination, timeslot).  Returns (events per
+    script, death) - death = (index of the script, number of its operations done, kind, stderr)."""
+    script = "\n".join("\n".join(s.ops) for s in scens) + "\n"
+    rc, out, err = cbuild.run_driver(exe, script, timeout=1200)
+    per = []
+    for ln in out.splitlines():
+        try:
+            e = json.loads(ln)
+        except ValueError:
+            if rc == 0:
+                raise tlc.MachineryError("drv_sched_trx printed no valid JSON: %r" % ln[:200])
+            break                       # cut off by the death of the process
+        if e["e"] == "new":
+            per.append([])
+        per[-1].append(e)
+    death = None
+    if rc != 0:
+        if rc == 3:
+            raise tlc.MachineryError("drv_sched_trx refused its script: %s" % err[-500:])
+        k = max(len(per) - 1, 0)
+        death = (k, len(per[k]) if per else 0, mem_kind(rc, err), err[-3000:])
+    else:
+        if len(per) != len(scens) or any(len(ev) != len(s.ops) for ev, s in zip(per, scens)):
+            raise tlc.MachineryError("drv_sched_trx: event count does not match the script (%s)" % scens[0].id)
+    per += [[] for _ in range(len(scens) - len(per))]
+    return per, death
+
+
+def dispatch_record(ctx, trx):
+    """Runs in a background thread: no ctx accounting here."""
+    mcpool = ThreadPoolExecutor(max_workers=1)
+    mcjob = mcpool.submit(dispatch_mc, ctx)      # the specification itself on small made-up layouts, meanwhile
+    with ThreadPoolExecutor(max_workers=2) as ex:
+        exes = list(ex.map(lambda san: build_sched(ctx, san), (True, False)))
+    exe, plain = exes
+    rc, out, err = cbuild.run_driver(exe, "X\n")
+    if rc != 0:
+        return dict(desc=None, death=("desc", mem_kind(rc, err), err[-3000:]))
+    try:
+        dd = json.loads(out)
+    except ValueError as ex:
+        raise tlc.MachineryError("drv_sched_trx printed no valid descriptor dump: %s" % ex)
+    desc = dd["chans"]
+    if len(desc) != len(trx["chans"]) or dd["hyper"] != HYPER or dd["probe_active"] != 1 or dd["nobid"] != 255 or \
+       any(dd["errno"][k] != v for k, v in EXPECT_ERRNO.items()):
+        raise tlc.MachineryError("descriptor dump does not fit SchedDispatch.tla's named constants: %s" %
+                                 {k: dd[k] for k in ("hyper", "probe_active", "nobid", "errno")})
+    descfile = os.path.join(ctx.scratch, "desc.json")
+    with open(descfile, "w") as f:
+        json.dump(dd, f)
+    groups = []
+    for lk in trx["lookups"]:
+        c = trx["cfgs"].index(lk["cfg"])
+        groups.append(scenarios_for(ctx, trx, desc, lk["cfg"], c, lk["tn"], lk["lid"]))
+    # quick: one batch; thorough: one batch per combination (hundreds of thousands of operations each)
+    batches = {}
+    for g in groups:
+        batches.setdefault(g[0].cfgname if ctx.thorough else "", []).append(g)
+    rec = dict(desc=dd, descfile=descfile, traces=[], deaths=[], scen_of={}, verdicts=[], nscripts=sum(len(g) for g in groups),
+               ntraces=0, nev=0, ncall=0, nsub=0, pairs=set(), stats=dict(generated=0, distinct=0, wall=0.0, jobs=0))
+    for name, bg in batches.items():
+        with ThreadPoolExecutor(max_workers=DISPATCH_PARALLEL) as ex:
+            runs = list(ex.map(lambda g: run_scripts(exe, g), bg))
+        traces = []
+        for g, (per, death) in zip(bg, runs):
+            if death:
+                k, done, kind, err = death
+                rec["deaths"].append(dict(scen=g[k], done=done, kind=kind, stderr=err))
+                # what does the code do beyond the bad access?  the same scripts on a build without sanitizers
+                try:
+                    per2, death2 = run_scripts(plain, g)
+                    if not death2:
+                        per = per2
+                except (tlc.MachineryError, subprocess.TimeoutExpired):
+                    pass
+            for s, ev in zip(g, per):
+                if ev:
+                    traces.append(s.trace(ev))
+                    rec["scen_of"][s.id] = s
+        del runs
+        ctx.log("dispatch: %s%d scripts run in the real sched_trx.c" % (name and name + ": ", sum(len(g) for g in bg)))
+        # still in the background (the Mframe walk of the main thread is single-threaded): the recorded
+        # traces against the specification
+        res, stats = validate_dispatch(traces, ctx.scratch, descfile)
+        for k in stats:
+            rec["stats"][k] += stats[k]
+        rec["verdicts"] += res
+        bad = {v["id"] for v in res if v["reached"] != v["n"]}
+        rec["ntraces"] += len(traces)
+        for t in traces:
+            rec["nev"] += len(t["ev"])
+            for e in t["ev"]:
+                n = len(e.get("calls", ()))
+                rec["ncall"] += n
+                if e["e"] == "rx" and n > 1:
+                    rec["nsub"] += n - 1
+            rec["pairs"].add((t["cfg"]["want"], t["cfg"]["tn"]))
+            if t["id"] in bad or "-gaps-o" not in t["id"]:
+                rec["traces"].append(t)          # the big per-offset traces of thorough are only kept when rejected
+    rec["mc"] = mcjob.result()
+    mcpool.shutdown()
+    return rec
+
+
+def dispatch_mc(ctx):
+    out = []
+    for cfg, what in [(ctx.pick("MC_SchedDispatchQ.cfg", "MC_SchedDispatch.cfg"), "one timeslot, every fn of a small hyperframe")] + \
+                     ([("MC_SchedDispatchTn.cfg", "two timeslots")] if ctx.thorough else []):
+        r = tlc.run("SchedDispatch.tla", cfg, workers=ctx.pick(2, 4), timeout=900, scratch=ctx.scratch)
+        out.append(("MC %s (SchedDispatch: configure / activate / rx with gaps / pull / probe interleavings, %s)" % (cfg, what), cfg, r))
+    return out
+
+
+def call_rows(lay, calls):
+    """For the report: the layout row of each call's own fn."""
+    p = lay["period"]
+    return [dict(call=cl, row_of_fn=lay["frames"][cl[3] % p] if p else None) for cl in calls[:12]]
+
+
+def dispatch_judge(ctx, rec):
+    ctx.trusted += ["drv_sched_trx.c (recording burst handlers, l1sched_prim_* / osmo_a5 / LOGP stand-ins; never evaluates a lookup itself)",
+                    "shim headers harness/c/shim/schedtrx (additions of newer libosmocore: GSM_TDMA_FN_INC, llist_first_entry_or_null, "
+                    "RSL channel numbers, OSMO_ASSERT); in-repo talloc.c and msgb.c"]
+    ctx.assumptions += ["a timeslot whose first l1sched_configure_ts() failed is not used further (the code leaves its lchan list "
+                        "head uninitialised); no Tx primitives are queued (the RACH override in l1sched_pull_burst is not exercised); "
+                        "no ciphering"]
+    if rec["desc"] is None:
+        _, kind, err = rec["death"]
+        ctx.violation("C11/trx/memory/%s" % kind, "drv_sched_trx killed while dumping l1sched_lchan_desc[] (%s)" % kind, dict(stderr=err))
+        return
+    for d in rec["deaths"]:
+        s = d["scen"]
+        ctx.violation("C11/trx/memory/%s" % d["kind"],
+                      "sched_trx.c killed by the sanitizer (%s) in scenario %s at operation %d: %s" %
+                      (d["kind"], s.id, d["done"] + 1, s.ops[d["done"]] if d["done"] < len(s.ops) else "?"),
+                      dict(scenario=s.id, cfg=s.cfgname, tn=s.tn, script=s.ops[:d["done"] + 1], stderr=d["stderr"]))
+    for label, cfg, r in rec["mc"]:
+        ctx.require_ok(label, r)
+        if r.ok and r.distinct < 1000:
+            raise tlc.MachineryError("SchedDispatch explored only %d states with %s" % (r.distinct, cfg))
+    traces = rec["traces"]
+    descfile = rec["descfile"]
+    nev, ncall, nsub = rec["nev"], rec["ncall"], rec["nsub"]
+    ctx.log("dispatch: %d traces, %d operations of the real sched_trx.c, %d handler calls (%d substituted lost frames)"
+            % (rec["ntraces"], nev, ncall, nsub))
+    if not rec["deaths"] and (nsub < 500 or ncall < 5000):
+        raise tlc.MachineryError("dispatch scenarios are (nearly) vacuous: %d handler calls, %d substituted" % (ncall, nsub))
+    res = rec["verdicts"]
+    ctx.add_tv("TV SchedDispatchTrace (real sched_trx.c: walks, lost-frame gaps, out-of-order, (de)activation)", rec["stats"], rec["ntraces"])
+    byid = {t["id"]: t for t in traces}
+    for v in res:
+        if v["reached"] == v["n"]:
+            continue
+        t = byid[v["id"]]
+        s = rec["scen_of"][v["id"]]
+        e = t["ev"][v["reached"]]
+        tag = v["tag"]
+        if not tag.startswith("C11.dispatch."):
+            raise tlc.MachineryError("trace %s left the specified domain at event %d (%s): %s" % (v["id"], v["reached"] + 1, tag, e))
+        ctx.violation("C11/%s/%s" % (tag, s.cfgname.replace("GSM_PCHAN_", "")),
+                      "sched_trx.c on %s tn %d, scenario %s: operation %d (%s) rejected by %s: %s" %
+                      (s.cfgname, s.tn, s.kind, v["reached"] + 1, s.ops[v["reached"]], tag, json.dumps(e)[:300]),
+                      dict(scenario=v["id"], cfg=s.cfgname, tn=s.tn, tag=tag, script=s.ops[:v["reached"] + 1], event=e,
+                           previous=t["ev"][max(0, v["reached"] - 2):v["reached"]],
+                           rows=call_rows(s.lay, e.get("calls", []))))
+    ctx.count(nev)
+    ctx.nontrivial_n += ncall
+    ctx.extra.setdefault("observations", []).append(
+        "l1sched_configure_ts(): when the first configuration of a timeslot fails (-EINVAL, no layout for the combination) the "
+        "timeslot stays allocated with a zeroed lchan list head; the next l1sched_configure_ts / l1sched_reset_ts / l1sched_del_ts / "
+        "l1sched_free on it dereferences NULL in l1sched_deactivate_all_lchans (sched_trx.c:590; driver script 'N, C 1 7, C 1 3'). "
+        "trxcon's own callers only pass combinations that have a layout, so this is outside C11")
+    ctx.extra.update(dispatch_operations=nev, dispatch_handler_calls=ncall, dispatch_substituted_frames=nsub,
+                     dispatch_scripts=rec["nscripts"],
+                     dispatch_config_timeslot_pairs=len(rec["pairs"]))
+    t0 = next((t for t in traces if t["id"].endswith("loss-straddle") and "TCH_F" in t["id"]), traces[0])
+    ctx.sample(dict(trace=t0["id"], events=[e for e in t0["ev"] if e["e"] == "rx"][4:8]), limit=6)
+    ctx.rule += ("; dispatch stage: every (combination, timeslot) configured in the real sched_trx.c, every fn of two periods "
+                 "pulled/received/probed across a period boundary (a sample across the hyperframe wrap), gaps of lost frames of every "
+                 "length 1..period+2 across a multiple of the period / inside a period / across the hyperframe wrap"
+                 + (", every gap length 0..period+2 behind every start offset" if ctx.thorough else "") +
+                 "; an evaluation = one operation judged by SchedDispatchTrace; non-trivial = handler calls")
+    if ctx.thorough and not ctx.violations:
+        dispatch_selftest(ctx, traces, descfile)
+
+
+def validate_dispatch(traces, scratch, descfile):
+    """tlc.validate_traces(chunk="balance") with the trace files written in one piece (json.dump to a
+    file goes through the slow incremental encoder; these batches are tens of megabytes)."""
+    bins = [[0, []] for _ in range(DISPATCH_PARALLEL)]
+    for t in sorted(traces, key=lambda t: -(len(t["ev"]) + sum(len(e.get("calls", ())) for e in t["ev"]) // 4)):
+        b = min(bins, key=lambda b: b[0])
+        b[0] += len(t["ev"]) + sum(len(e.get("calls", ())) for e in t["ev"]) // 4 + 5
+        b[1].append(t)
+    chunks = [b[1] for b in bins if b[1]]
+
+    def one(ix_chunk):
+        ix, ch = ix_chunk
+        stamp = "%d-%d" % (ix, time.time_ns() % 10**9)
+        tf = os.path.join(scratch, "traces-dispatch-%s.json" % stamp)
+        of = os.path.join(scratch, "out-dispatch-%s.json" % stamp)
+        with open(tf, "w") as f:
+            f.write(json.dumps(ch, separators=(",", ":")))
+        r = tlc.run("SchedDispatchTrace.tla", "SchedDispatchTrace.cfg", workers=1, timeout=3000, scratch=scratch, heap="6g",
+                    env=dict(TRACE_FILE=tf, OUT_FILE=of, DESC_FILE=descfile))
+        if not r.ok or not os.path.exists(of):
+            raise tlc.MachineryError("trace spec SchedDispatchTrace reported %s:\n%s" % (r.violation, r.out[-3000:]))
+        with open(of) as f:
+            out = json.load(f)
+        os.unlink(tf)
+        os.unlink(of)
+        if len(out) != len(ch):
+            raise tlc.MachineryError("trace spec SchedDispatchTrace: %d results for %d traces" % (len(out), len(ch)))
+        return out, r
+
+    results, gen, dist, wall = [], 0, 0, 0.0
+    with ThreadPoolExecutor(max_workers=DISPATCH_PARALLEL) as ex:
+        for out, r in ex.map(one, list(enumerate(chunks))):
+            results.extend(out)
+            gen, dist, wall = gen + r.generated, dist + r.distinct, wall + r.wall
+    return results, dict(generated=gen, distinct=dist, wall=round(wall, 2), jobs=len(chunks))
+
+
+def dispatch_selftest(ctx, traces, descfile):
+    """Binding: a single corrupted handler call (bid + 1) must be rejected at exactly that event by
+    the clause that compares a call with the layout row of its own fn."""
+    jobs = []
+    for want, ev, idx in (("loss-straddle", "rx", 0), ("loss-wrap", "rx", -1), ("walk", "pull", 0)):
+        t = next((t for t in traces if t["id"].endswith(want)
+                  and any(e["e"] == ev and len(e["calls"]) > (1 if ev == "rx" else 0) for e in t["ev"])), None)
+        if t is None:
+            raise tlc.MachineryError("self-test: no %s trace with %s calls" % (want, ev))
+        t = copy.deepcopy(t)
+        k = [i for i, e in enumerate(t["ev"]) if e["e"] == ev and len(e["calls"]) > (1 if ev == "rx" else 0)]
+        k = k[len(k) // 2]
+        t["ev"][k]["calls"][idx][2] += 1
+        t["id"] = "selftest-%s-%s" % (want, ev)
+        jobs.append((t, k, "C11.dispatch.%s-row" % ev))
+    # and a substituted call dropped: conformance with the specified list of calls
+    t = next((t for t in traces if t["id"].endswith("loss-inside") and any(e["e"] == "rx" and len(e["calls"]) > 2 for e in t["ev"])), None)
+    if t is None:
+        raise tlc.MachineryError("self-test: no loss-inside trace with two substituted frames")
+    t = copy.deepcopy(t)
+    k = next(i for i, e in enumerate(t["ev"]) if e["e"] == "rx" and len(e["calls"]) > 2)
+    del t["ev"][k]["calls"][1]
+    t["id"] = "selftest-dropped-substitution"
+    jobs.append((t, k, "C11.dispatch.rx-calls"))
+    res, _ = validate_dispatch([j[0] for j in jobs], ctx.scratch, descfile)
+    byid = {v["id"]: v for v in res}
+    for t, k, tag in jobs:
+        v = byid[t["id"]]
+        if v["reached"] != k or v["tag"] != tag:
+            raise tlc.MachineryError("self-test: corrupted call in %s event %d not rejected there by %s (verdict %s)" % (t["id"], k + 1, tag, v))
+    ctx.extra["dispatch_corruptions_flagged"] = len(jobs)
+
+
 def run(ctx):
     ctx.trusted += ["drv_mframe_fw.c (own tdma_schedule_set() recording the calls; dummy scheduling sets: only their identity matters)",
                     "drv_mframe_trx.c (dumps layouts; enumerator name tables built from the real enum constants)",
@@ -227,6 +689,8 @@ def run(ctx):
     if fw.get("cycle") != CYCLE or trx.get("cycle") != CYCLE or len(fw["tasks"]) < 20 or len(trx["layouts"]) < 5:
         raise tlc.MachineryError("implausible dumps: fw tasks=%d trx layouts=%d" % (len(fw["tasks"]), len(trx["layouts"])))
     dump = dict(fw=fw, trx=trx)
+    bg = ThreadPoolExecutor(max_workers=1)
+    dispatch_job = bg.submit(dispatch_record, ctx, trx)      # builds + runs the real sched_trx.c meanwhile
     ncalls = sum(len(t["calls"]) for t in fw["tasks"])
     nrows = sum(len(l["frames"]) for l in trx["layouts"])
     ctx.log("dumps: %d firmware scheduling calls of %d tasks; %d layouts (%d frame rows), %d lookups, %d C walks"
@@ -255,6 +719,9 @@ def run(ctx):
                 "(correspondence pair | lookup | layout clause) at one fn; non-trivial = recorded scheduling calls + layout rows")
     ctx.extra["observations"] = ["mframe_schedule(): `tasks & (1 << i)` with i = 31 shifts into the sign bit of int (UBSan shift); "
                                  "sched_set_for_task[] has no entry for task bits 29..31 (NULL dereference if such a bit were set)"]
+    # ---- the frame lookups of sched_trx.c at work (trace validation against SchedDispatch)
+    dispatch_judge(ctx, dispatch_job.result())
+    bg.shutdown()
     # ---- thorough: the clauses notice single-entry corruptions of the dumps
     if ctx.thorough and not ctx.violations:
         base = dict(fw=fw, trx=dict(trx, walk=[]))
